@@ -103,36 +103,11 @@ func TestGoldenParse(t *testing.T) {
 	t.Logf("golden statements: %d, parse failures: %d", len(cases), bad)
 }
 
-func paramNames(stmt *Statement) []string {
-	seen := map[string]bool{}
-	var out []string
-	Walk(stmt.Body, func(n Node) bool {
-		if p, ok := n.(*Param); ok && !seen[p.Name] {
-			seen[p.Name] = true
-			out = append(out, p.Name)
-		}
-		return true
-	})
-	return out
-}
+func paramNames(stmt *Statement) []string { return ParamNames(stmt) }
 
-// looksLikeSQL recognises the statements DAWGS passes around as text (shortest-path harness).
-func looksLikeSQL(s string) bool {
-	l := strings.ToLower(strings.TrimSpace(s))
-	return strings.HasPrefix(l, "insert into ") || strings.HasPrefix(l, "select ") || strings.HasPrefix(l, "with ")
-}
+func looksLikeSQL(s string) bool { return LooksLikeSQL(s) }
 
-// embeddedSQL returns every string literal of the statement that is itself SQL.
-func embeddedSQL(stmt *Statement) []string {
-	var out []string
-	Walk(stmt.Body, func(n Node) bool {
-		if l, ok := n.(*Literal); ok && l.Kind == "string" && looksLikeSQL(l.Text) {
-			out = append(out, l.Text)
-		}
-		return true
-	})
-	return out
-}
+func embeddedSQL(stmt *Statement) []string { return EmbeddedSQL(stmt) }
 
 // bindClean parses and binds sql (and, recursively, every SQL text embedded in it as a string
 // literal, as harness SQL); it returns the problems found as text.
@@ -186,8 +161,8 @@ func bindClean(label, sql string, params map[string]any, stats *BindStats, harne
 // candidate; the goldens only pin the text, no integration case exercises the shape.
 var knownOpenGoldens = map[string]string{
 	"match p=(c:NodeKind1)-[]->(u:NodeKind2) match p2=shortestPath((u:NodeKind2)-[*1..]->(d:NodeKind1)) return p, p2 limit 500": "bound root filter reads caller CTE s0",
-	"match (a:NodeKind1), (b:NodeKind2) match p=shortestPath((a)-[:EdgeKind1*]->(b)) return p":                                 "bound pair filter reads caller CTE s1",
-	"match (a:NodeKind1), (b:NodeKind2) match p=allShortestPaths((a)-[:EdgeKind1*..]->(b)) return p":                           "bound pair filter reads caller CTE s1",
+	"match (a:NodeKind1), (b:NodeKind2) match p=shortestPath((a)-[:EdgeKind1*]->(b)) return p":                                  "bound pair filter reads caller CTE s1",
+	"match (a:NodeKind1), (b:NodeKind2) match p=allShortestPaths((a)-[:EdgeKind1*..]->(b)) return p":                            "bound pair filter reads caller CTE s1",
 }
 
 func isKnownOpenGolden(cypher string) (string, bool) {
